@@ -754,3 +754,85 @@ def pds_decoder_contracts():
     odl.assumed = True
     odl.note = "contract in section decoder-zone-offset-contract"
     return [inner, odl, c]
+
+
+# ------------------------------------------------------------------------------------------------
+# T_enc: ODL sequence restrictions (C12) and the text wiring of units / sets / sequences (C01, C12)
+
+def collection_contracts():
+    from ..pyvc.core import LoopSpec, Z, ObjV
+    from ..pyvc.objtheory import S, sval, strcat, lit
+    from ..pyvc.enctheory import (type_is, type_id, elem_of, pylen, scalar_ok, inner_ok, elems_ok, str_of)
+    E = "pvl.encoder."
+    out = []
+
+    def sig(cls, name, const, params=None):
+        k = Contract(E + cls + "." + name, params=params or {"value": "pyval"}, exits=[
+            Exit("return", res=lambda ex: Z("str", z3.Const(const, S))), Exit("ValueError"), Exit("TypeError")])
+        k.assumed = True
+        k.note = "signature only"
+        return k
+    out += [sig("PVLEncoder", "encode_sequence", "result_of_PVLEncoder_encode_sequence"),
+            sig("PVLEncoder", "encode_setseq", "result_of_encode_setseq", {"values": "pyval"}),
+            sig("PVLEncoder", "encode_simple_value", "result_of_encode_simple_value"),
+            sig("PVLEncoder", "encode_units", "result_of_encode_units", {"value": "str"}),
+            sig("ODLEncoder", "encode_units", "result_of_encode_units", {"value": "str"})]
+    isc = Contract(E + "ODLEncoder.is_scalar", params={"value": "pyval"}, exits=[
+        Exit("return", res="bool", post=lambda pre, post, a, r: [("deterministic", r.t == scalar_ok(a["value"].info["id"]))])])
+    isc.assumed = True
+    isc.pure = True
+    isc.note = "an uninterpreted predicate of the value (numbers, dates, times, strings): bounded conformance reader"
+    out.append(isc)
+
+    inner = LoopSpec(
+        fall_through=lambda env, st, x: [("the inner element is a scalar and not a list", z3.And(z3.Not(type_is(x, type_id("list"))), scalar_ok(x)))],
+        exit=lambda env, st: [("every inner element is a scalar", inner_ok(env["v"].info["id"]))])
+    outer = LoopSpec(
+        fall_through=lambda env, st, x: [("the element is a scalar, or a list of scalars",
+                                          z3.If(type_is(x, type_id("list")), inner_ok(x), scalar_ok(x)))],
+        exit=lambda env, st: [("every element is a scalar or a list of scalars", elems_ok(env["value"].info["id"]))])
+    c = Contract(E + "ODLEncoder.encode_sequence", params={"value": "pyval"}, loops={0: outer, 1: inner}, exits=[
+        Exit("return", res="str", post=lambda pre, post, a, r: [
+            ("ODL writes a sequence only if it is not empty and at most two-dimensional with scalar elements",
+             z3.And(pylen(a["value"].info["id"]) > 0, elems_ok(a["value"].info["id"]))),
+            ("the text is the parent encoder's sequence text", r.t == z3.Const("result_of_PVLEncoder_encode_sequence", S))]),
+        Exit("ValueError"), Exit("TypeError")], props=("C12",))
+    c.cases = [(cls, {"value": "pyval", "__cls__": cls}) for cls in ("ODLEncoder", "PDSLabelEncoder")]
+    out.append(c)
+
+    return out
+
+
+def wiring_contracts():
+    """second registry: bodies whose callees are the signatures of collection_contracts"""
+    from ..pyvc.core import Z
+    from ..pyvc.objtheory import S, sval, strcat, lit
+    from ..pyvc.enctheory import str_of
+    E = "pvl.encoder."
+    out = []
+
+    def sig(cls, name, const, params=None):
+        k = Contract(E + cls + "." + name, params=params or {"value": "pyval"}, exits=[
+            Exit("return", res=lambda ex: Z("str", z3.Const(const, S))), Exit("ValueError"), Exit("TypeError")])
+        k.assumed = True
+        k.note = "signature only"
+        return k
+    out += [sig("PVLEncoder", "encode_setseq", "result_of_encode_setseq", {"values": "pyval"}),
+            sig("PVLEncoder", "encode_simple_value", "result_of_encode_simple_value"),
+            sig("ODLEncoder", "encode_units", "result_of_encode_units", {"value": "str"})]
+    SS = z3.Const("result_of_encode_setseq", S)
+    out.append(Contract(E + "PVLEncoder.encode_sequence", params={"value": "pyval"}, exits=[
+        Exit("return", res="str", post=lambda pre, post, a, r: [("a sequence is its elements' text in parentheses",
+                                                                 r.t == strcat(strcat(lit("("), SS), lit(")")))]),
+        Exit("ValueError"), Exit("TypeError")], props=("C01", "C12")))
+    out.append(Contract(E + "PVLEncoder.encode_set", params={"value": "pyval"}, exits=[
+        Exit("return", res="str", post=lambda pre, post, a, r: [("a set is its elements' text in braces",
+                                                                 r.t == strcat(strcat(lit("{"), SS), lit("}")))]),
+        Exit("ValueError"), Exit("TypeError")], props=("C01", "C12")))
+    g0, g1 = z3.Const("units_open", S), z3.Const("units_close", S)
+    pu = Contract(E + "PVLEncoder.encode_units", params={"value": "str"}, exits=[
+        Exit("return", res="str", post=lambda pre, post, a, r: [("units are enclosed in the grammar's units delimiters",
+                                                                 r.t == strcat(strcat(g0, sval(a["value"])), g1))])], props=("C01", "C12"))
+    pu.cases = [("PVLEncoder", {"value": "str", "__cls__": "PVLEncoder"}), ("ISISEncoder", {"value": "str", "__cls__": "ISISEncoder"})]
+    out.append(pu)
+    return out
